@@ -225,6 +225,56 @@ def block_results_stream(ctx, rng):
                 ctx.violation(f"C06:block-result-raised-{type(e).__name__}", f"{name}: {type(e).__name__}: {str(e)[:60]}", rep)
 
 
+def leftover_params_stream(ctx, rng):
+    """bare blocks: a solve that omits a parameter must not pick up the value an earlier solve was given; a solve that
+    fails must not corrupt the object for later solves (also for mode-expanded blocks)"""
+    L = impl.lk()
+    for name, (factory, params) in c04.block_factories().items():
+        if name == "FPRGaussian" or not params:
+            continue
+        for expanded in (False, True):
+            ctx.case(("leftover", name, expanded), tags=["stream:leftover-params"])
+            rep = {"kind": "leftover", "block": name, "expanded": expanded}
+
+            def make():
+                m = factory()
+                if expanded:
+                    if any(p.mode_name is not None for p in m.pin_dic):
+                        return None
+                    m = m.expand_mode(["TE", "TM"])
+                return m
+            m = make()
+            if m is None:
+                continue
+            p1 = {k: lo + 0.3 * (hi - lo) for k, (lo, hi) in params.items()}
+            first = list(params)[0]
+            p2 = {k: v for k, v in p1.items() if k != first}          # omit one parameter
+
+            def attempt(obj, kw):
+                try:
+                    return "ok", np.array(obj.solve(**kw).S)
+                except Exception as e:  # noqa
+                    return type(e).__name__, None
+            fresh = attempt(make(), p2)
+            try:
+                m.solve(**{k: lo + 0.8 * (hi - lo) for k, (lo, hi) in params.items()})
+            except Exception as e:  # noqa
+                ctx.violation(f"C06:leftover-raised-{type(e).__name__}", f"{name}: {str(e)[:60]}", rep)
+                continue
+            used = attempt(m, p2)
+            if used[0] != fresh[0] or (used[0] == "ok" and (used[1].shape != fresh[1].shape or np.max(np.abs(used[1] - fresh[1])) > 1e-12)):
+                ctx.violation("C06:leftover-parameter", f"{name}{' (mode-expanded)' if expanded else ''}: solve({sorted(p2)}) after an earlier solve gives "
+                              f"{used[0]}, on a fresh object {fresh[0]}: the omitted parameter {first} kept the earlier call's value", rep)
+                continue
+            # a failing call (missing required parameter / bad value) followed by a valid one
+            bad = attempt(m, {first: "not-a-number"})
+            after = attempt(m, p1)
+            ref = attempt(make(), p1)
+            if after[0] != ref[0] or (after[0] == "ok" and (after[1].shape != ref[1].shape or np.max(np.abs(after[1] - ref[1])) > 1e-12)):
+                ctx.violation("C06:poisoned-model", f"{name}{' (mode-expanded)' if expanded else ''}: after a failing solve ({bad[0]}) a valid solve gives {after[0]}"
+                              f"{'' if after[0] != 'ok' else ' with a different matrix'}; a fresh object gives {ref[0]}", rep)
+
+
 def fine_scan_stream(ctx, rng):
     """a nested circuit that is very sensitive to wl (long waveguide) solved at parameter values that differ only in the
     9th digit, and with long sweeps that agree at both ends: each solve must equal the same call on a fresh build"""
@@ -297,6 +347,7 @@ def run(ctx):
     rng = ctx.subrng("c06")
     block_results_stream(ctx, rng)
     fine_scan_stream(ctx, rng)
+    leftover_params_stream(ctx, rng)
     n = ctx.budget(120, 1500)
     maxs = 8 if ctx.tier == "quick" else 14
     for i in range(n):
@@ -344,6 +395,11 @@ def run(ctx):
 
 def replay(ctx, data):
     from common import parse_cfrac
+    if data.get("kind") == "leftover":
+        leftover_params_stream(ctx, ctx.subrng("c06"))
+        if ctx.violations:
+            return False, ctx.violations[0]["what"]
+        return True, "bare blocks keep no trace of earlier or failed solves"
     if data.get("kind") == "fine-scan":
         fine_scan_stream(ctx, ctx.subrng("c06"))
         if ctx.violations:
